@@ -441,7 +441,9 @@ def concurrent_cases(tier):
                                queries=[(la, la // 2, False), (lb, lb - 1, True)])
                     cases.append({'kind': 'concurrent', 'scn': scn})
         if tier != 'quick':
-            for trip in ((17, 30, 40), (40, 30, 7), (30, 30, 33)):
+            # three concurrent lookups: the interleavings grow too fast for longer lists
+            # (one (17, 30, 33) scenario alone did not finish in ten minutes)
+            for trip in ((3, 7, 16), (7, 3, 9)):
                 scn = dict(size=size, l0=l0, truncate=9,
                            queries=[(l, l // 3, False) for l in trip])
                 cases.append({'kind': 'concurrent', 'scn': scn})
